@@ -140,6 +140,45 @@ CLAIMED = {
         "sizes and four_neighbors on out-of-range cells are modelled and correspondence-checked but not specified.",
         "Lean 4 theorems + kernel-checked regenerated dispatch table + differential correspondence",
         "DESIGN.md §5 C12"),
+    "C07": (
+        "Kernel-checked theorems for all multigraphs, all shapes of group_size (absent, constant / integer expression, per-vertex list "
+        "with None holes) and all assignments: C07_groups_exact (a partition is realisable by the returned group ids -- equal ids "
+        "exactly within a block, for some completion of the hidden variables -- iff every block induces a connected subgraph and every "
+        "vertex with a specified size lies in a block of exactly that size; includes the subtree-size accounting), C07_groups_nosize, "
+        "C07_borders_aux / C07_borders_prim (with-borders form, auxiliary route and native graph-division operator: satisfiable iff "
+        "every border edge joins two different blocks of the partition obtained by cutting the border edges and the blocks meet the "
+        "size condition). Inner-frame dualisation to the cell graph is covered by C14_dual/C14_graph. Tie: program equality incl. "
+        "returned ids; search over all set partitions / border subsets of small graphs on the real code.",
+        "Trusted: Lean kernel + standard axioms; Mathlib Reachable/Preconnected/Set.ncard; `eval`, `evalDiv`; hand-written generator "
+        "model tied by program equality.",
+        "Lean 4 theorems (certificate layer + graph theory + size accounting) + program-equality correspondence",
+        "DESIGN.md §5 C07"),
+    "C18": (
+        "Kernel-checked theorems for all board sizes, all bound configurations (incl. None/0), all states, all candidate choices and all "
+        "seed streams: C18_step (Inv preserved by every proposed update: merge, two-seed BFS Voronoi split, move of a boundary cell), "
+        "C18_part_step, C18_initial, C18_reachable (induction over any finite update sequence), C18_isConnected (the recursive visit "
+        "decides connectivity of block minus cell), C18_split_halves, C18_bfs_total, C18_pure. Random choices are parameters of the "
+        "model. 'Never modifies the value it was applied to' is decided by the correspondence (snapshots of every earlier value). Tie: "
+        "real SegmentationBuilder2D with `random` replaced in the harness process by a recording source feeding the same draws to the "
+        "Lean model, over random walks; independent partition/BFS oracle.",
+        "Trusted: Lean kernel + standard axioms; Spec/Partition.lean; hand-written model tied by correspondence; CPython recursion "
+        "limit is a parameter (RecursionError on ~1000-cell blocks is an observation outside the property); set iteration order "
+        "canonicalised; aliasing/purity rests on the harness.",
+        "Lean 4 theorems (invariant by induction over updates) + differential correspondence with recorded randomness",
+        "DESIGN.md §5 C18"),
+    "C20": (
+        "Kernel-checked decision-logic theorems over ALL environments, availability combinations, config values and call arguments: "
+        "C20_backend (the class that receives the solve is the one named by the call argument, else by config.default_backend; unknown "
+        "names => ValueError), C20_default (CSPUZ_DEFAULT_BACKEND verbatim unless 'auto', else first importable of cspuz_core, "
+        "enigma_csp, csugar, z3, else sugar), C20_flags (defaults on exactly for the supporting backends, strict env parsing, "
+        "infer_from_env=False), C20_strtobool, C20_primitive (each graph generator emits a native operator iff the resolved flag says "
+        "so, never for acyclic connectivity), tables_agree (tables of _get_backend_by_name/_strtobool/_detect_backend/Config() "
+        "REGENERATED from the live code in subprocesses under all 2^4 availability combinations, re-checked by the kernel). Tie: "
+        "regenerated tables + dispatch/graph-call correspondence.",
+        "Trusted: Lean kernel + standard axioms; str.lower modelled as ASCII folding (harness checks on every run that no non-ASCII "
+        "code point lower-cases into a relevant character); import probing modelled as one Boolean per module.",
+        "Lean 4 theorems (case analysis) + kernel-checked regenerated tables + differential correspondence",
+        "DESIGN.md §5 C20"),
 }
 
 NOT_YET = "machinery for this property is still under construction in this round (model/theorems not yet committed)"
